@@ -303,6 +303,34 @@ def run(ctx):
         else:
             ctx.cov["traces_validated_against_impl"] += 1
             ctx.nontrivial(("chunk-signed", opname, style, size, fr))
+    # a Content-Type the caller chooses is a member of the operation, not a selector of another one: CreateMultipartUpload for an object whose
+    # type is any multipart/* media type other than the browser-form type is still CreateMultipartUpload, with and without a provider
+    mcases, mmeta = [], []
+    for ct in ("multipart/related", "multipart/mixed; boundary=xyz", "multipart/alternative", "multipart/byteranges; boundary=b", "multipart/x-mixed-replace",
+               "application/x-www-form-urlencoded", "message/rfc822", "multipart/form-data; boundary=xyz"):
+        for auth in (None, {S.AK: S.SK}):
+            for style in ("path", "vh"):
+                host = "my-bucket.s3.example.com" if style == "vh" else "s3.example.com"
+                path = "/obj.bin" if style == "vh" else "/my-bucket/obj.bin"
+                mcases.append(dict(config=dict(host=(dict(single="s3.example.com") if style == "vh" else None), auth=auth, access="allow", route="none"),
+                                   request=dict(method="POST", uri=(path + "?uploads").encode().hex(), headers=[["host", host.encode().hex()], ["content-type", ct.encode().hex()]], body=None)))
+                mmeta.append((ct, bool(auth), style))
+    for (ct, auth, style), r in zip(mmeta, vlib.run_impl("svc", mcases)):
+        ctx.cov["evaluations"] += 1
+        be = [e["op"] for e in r.get("events", []) if e["ev"] == "backend"]
+        show = dict(op="e2e-content-type", operation="CreateMultipartUpload", content_type=ct, provider=auth, style=style)
+        if ct.startswith("multipart/form-data") and "panic" not in r and "http_error" not in r.get("response", {}) and be == [] and "cmu-form-content-type" in known:
+            if "cmu-form-content-type" not in reported:
+                ctx.known("cmu-form-content-type", known["cmu-form-content-type"]); reported.add("cmu-form-content-type")
+            continue
+        if "panic" in r or "http_error" in r.get("response", {}) or be != ["create_multipart_upload"]:
+            body = bytes.fromhex(r.get("response", {}).get("body", "") or "").decode("utf8", "replace")
+            # (with a provider the unsigned request is anonymous and admitted by the allow-all hook of this configuration)
+            ctx.violation(dict(stage="e2e", kind="CreateMultipartUpload with a caller-chosen Content-Type was not delivered to its operation exactly once",
+                               case=show, backend=be, status=r.get("response", {}).get("status"), answer=body[:200]))
+        else:
+            ctx.cov["traces_validated_against_impl"] += 1
+            ctx.nontrivial(("content-type", ct, auth, style))
     ctx.count("e2e.operations_observed_at_backend", len(observed))
     ctx.count("e2e.operations_stopped_in_deserializer", len(set(unobserved) - observed))
     ctx.cov["e2e_unobserved"] = {k: v for k, v in unobserved.items() if k not in observed}
